@@ -3,10 +3,10 @@ SPEC = {
     "lean_props": ["TunnoxModel.Props.C06"],
     "harness": {
         "pkg": "c06",
-        "shims": {},
+        "shims": {"conncode": "internal/cloud/services/conncode"},
         "runs": [{"args": [], "corpus": ""}],
     },
-    "skip_model_prefix": ["fine"],
+    "skip_model_prefix": ["fine", "nfine", "uniq"],
     "rule": ("the real conncode.Service (ActivateConnectionCode / RevokeConnectionCode / CreateConnectionCode) over the real "
              "repositories, PortMappingService, ID manager and memory storage; every call runs as its own node (own service stack) on a "
              "gated wrapper over one shared storage. sched cases: all interleavings of the storage phases (claim/get/quota/create/"
@@ -15,9 +15,11 @@ SPEC = {
              "twice, two revocations, every single write-failure position of an activation and of a revocation (alone, followed by and "
              "interleaved with a second activation; claim/look-up/release failure with two other activations in flight), all 120 orders of create/expire/activate/activate/revoke for both key modes "
              "(real-time expiry), random structured cases (malformed requests, quotas, faults, late/missing/double creation, expiry "
-             "at random points); each compared token by token with the model and judged by the theorem's predicate. fine cases: every "
+             "at random points); nodes cases: the same interleavings with every call on its own cluster node (real HybridStorage with the "
+             "default routing tables: node-local cache + the cache shared by all nodes); each compared token by token with the model and judged by the theorem's predicate. fine cases: every "
              "single storage operation is a scheduling point, order drawn from the seed, judged by the predicate only. non-trivial = more "
-             "than one call or more than two events; distinct = distinct case strings"),
+             "than one call or more than two events. uniq cases: the real CreateConnectionCode on a code space of 1-3 codes (shim "
+             "VerifSetGenerator), creations interleaved with activations, judged by holdsUniq; distinct = distinct case strings"),
     "trusted_base": [
         "Lean 4.33 kernel; axioms propext, Classical.choice, Quot.sound only (audited per theorem on every run)",
         "extractor: IsExpired/IsValidForActivation/CanBeActivatedBy translated from the Go source (the model calls them); key prefixes, "
